@@ -151,19 +151,19 @@ theorem having_rep (o : Oracles) (env : Env) (cm : Option Comparison) (T : Table
     exact comparison_holds o env r p.value c hx
 
 /-! ### the final select (`MainFinalizerPlanner.processMatrix`) -/
-def finalCols : List Expr :=
+def matrixFinalCols : List Expr :=
   [simpleCol "prefinal.fingerprint" "fingerprint", simpleCol "prefinal.labels" "labels",
    simpleCol "prefinal.value" "value", simpleCol "prefinal.timestamp_ns" "timestamp_ns"]
 
 theorem projectA_final (o : Oracles) (env : Env) (r : Row) (h : StdRow r) :
-    projectA o env finalCols (qualify "prefinal" r) =
+    projectA o env matrixFinalCols (qualify "prefinal" r) =
       [("fingerprint", r.get "fingerprint"), ("labels", r.get "labels"), ("value", r.get "value"),
        ("timestamp_ns", r.get "timestamp_ns")] := by
   have e1 := get_q "prefinal" "fingerprint" "prefinal.fingerprint" rfl r h
   have e2 := get_q "prefinal" "labels" "prefinal.labels" rfl r h
   have e3 := get_q "prefinal" "value" "prefinal.value" rfl r h
   have e4 := get_q "prefinal" "timestamp_ns" "prefinal.timestamp_ns" rfl r h
-  simp [projectA, finalCols, scope, aliasVals, hasAgg, simpleCol, colName, get_cons, e1, e2, e3, e4]
+  simp [projectA, matrixFinalCols, scope, aliasVals, hasAgg, simpleCol, colName, get_cons, e1, e2, e3, e4]
 
 theorem normRow_get (r : Row) (k : String) (hk : k ≠ "value") : (normRow r).get k = r.get k := by
   unfold Row.get normRow
@@ -187,10 +187,10 @@ theorem rowLe_normRow (a b : Row) : rowLe matrixKeys (normRow a) (normRow b) = r
 /-- **final select.** ORDER BY fingerprint, timestamp_ns over the points, values read as numbers. -/
 theorem final_eval (o : Oracles) (db : Db) (env : Env) (T : Table) (pts : List Pt) (h : Rep T pts)
     (hT : env.lookup (.named "prefinal") = some T) (ws : List (Alias × Sel)) :
-    (evalBodyA o db env (.mk ws false finalCols (some (.withRef (.named "prefinal"))) [] none none [] none
+    (evalBodyA o db env (.mk ws false matrixFinalCols (some (.withRef (.named "prefinal"))) [] none none [] none
         [.orderBy (.raw "fingerprint") .asc, .orderBy (.raw "timestamp_ns") .asc] none)).map normRow =
       sortBy (rowLe matrixKeys) (pts.map Pt.row) := by
-  have hagg : (finalCols.any hasAgg) = false := by decide
+  have hagg : (matrixFinalCols.any hasAgg) = false := by decide
   simp only [evalBodyA, sourceRowsA, sourceRows, hT, Option.getD_some, List.foldl_nil, optB, Bool.and_self, filter_true,
     List.isEmpty_nil, hagg, Bool.not_false, if_true, Alias.text, List.isEmpty_cons, Bool.false_eq_true, if_false,
     orderKeys, List.map_map]
